@@ -515,6 +515,12 @@ impl Property for C19 {
 
     fn run(&self, src: &mut Src, ctx: &RunCtx) -> RunReport {
         let mut rep = RunReport::default();
+        // one run in 30: the transport tier (the real GossipManager on the simulated network, c19_mgr.rs)
+        if src.chance(1, 30) {
+            super::c19_mgr::run(src, ctx, &mut rep);
+            rep.evals = rep.evals.max(1);
+            return rep;
+        }
         // ---- configuration (0 on the tape = simplest)
         let np = 1 + src.below(9) as usize;
         let sparse_ids = src.chance(1, 3);
